@@ -7,3 +7,6 @@ impl EventListeners {
     #[verifier::external_body]
     pub fn len(&self) -> (r: usize) ensures r == self.n@ { unimplemented!() }
 }
+/// the pattern's name (String): carried only into events and metrics
+pub struct Name { pub p: Ghost<int> }
+impl Name { #[verifier::external_body] pub fn clone(&self) -> (r: Name) ensures r == *self { unimplemented!() } }
